@@ -205,7 +205,7 @@ def run_history(rec, hub, D, seed, shard, nshards, tier, h, length):
                 l = rng.choice(absent)
                 nd = D[l]
                 if kind == "append":
-                    r = ds.append(nd, inplace=inplace)
+                    r = ds.append(nd, inplace=inplace) if rng.random() < 0.6 else ds.append(nd, inplace)  # the switch also by position
                     newdims = m.dims + [O.dkey(nd)]
                 elif kind == "prepend":
                     r = ds.prepend(nd, inplace=inplace)
@@ -223,7 +223,7 @@ def run_history(rec, hub, D, seed, shard, nshards, tier, h, length):
             elif kind == "drop" and present:
                 l = rng.choice(present)
                 key = l if rng.random() < 0.5 else m.get(l)[1]
-                r = (ds.drop if rng.random() < 0.5 else ds.remove)(key, inplace=inplace)
+                r = (ds.drop if rng.random() < 0.5 else ds.remove)(key, inplace=inplace) if rng.random() < 0.6 else (ds.drop if rng.random() < 0.5 else ds.remove)(key, inplace)
                 newdims = [d for d in m.dims if d[0] != l]
                 desc = ("drop", key, inplace)
                 if inplace:
@@ -243,7 +243,7 @@ def run_history(rec, hub, D, seed, shard, nshards, tier, h, length):
                     pool.append((r, LDimSet(newdims)))
             elif kind == "expand" and absent:
                 ls = rng.sample(absent, rng.randint(1, len(absent)))
-                r = (ds.expand_by if rng.random() < 0.5 else ds.extend)([D[l] for l in ls], inplace=inplace)
+                r = (ds.expand_by if rng.random() < 0.5 else ds.extend)([D[l] for l in ls], inplace=inplace) if rng.random() < 0.6 else (ds.expand_by if rng.random() < 0.5 else ds.extend)([D[l] for l in ls], inplace) if rng.random() < 0.7 else ((ds.expand_by if rng.random() < 0.5 else ds.extend)([D[l] for l in ls]) if not inplace else (ds.expand_by if rng.random() < 0.5 else ds.extend)([D[l] for l in ls], inplace=True))
                 newdims = m.dims + [O.dkey(D[l]) for l in ls]
                 desc = ("expand", ls, inplace)
                 if inplace:
